@@ -215,6 +215,7 @@ func c17Generate(c *Ctx, m *Module) {
 		}
 		r.Check("C17.generate-shape", "generate/invalid record aborts", m.Pos(cs.Pos()), ok, "a ValidateChartConfig error must be returned")
 	}
+	c17MinVersionFold(c, m, gen)
 	// appends to Stacks / Counters
 	nApp := 0
 	for _, cs := range callsIn(gen, "builtin:append") {
@@ -583,4 +584,94 @@ func c17FreshListing(c *Ctx, m *Module) {
 				"a listing that generate filters in place must not be kept in package state")
 		}
 	}
+}
+
+// c17MinVersionFold: the per-program minimum is the fold of minVersion over ALL records of the
+// program. Every store to the minimum-version table in the records loop is either the fold step
+// minVersions[p] = minVersion(p, minVersions[p], record.Version), executed for every record, or
+// the initialisation with the record's version when the PROGRAM is first seen (its entry in the
+// program table is nil) — never a decision taken on the stored minimum itself ("" means "all
+// versions", not "unset").
+func c17MinVersionFold(c *Ctx, m *Module, gen *ssa.Function) {
+	r := c.R
+	var folds []ssa.Instruction
+	nStores := 0
+	for _, in := range instrsOf(gen) {
+		mu, ok := in.(*ssa.MapUpdate)
+		if !ok {
+			continue
+		}
+		mp, isMake := strip(mu.Map).(*ssa.MakeMap)
+		if !isMake {
+			continue
+		}
+		// the minimum-version table: a map[string]string some update of which stores minVersion(...)
+		isMinTable := false
+		for _, u := range referrers(mp) {
+			if mu2, ok := u.(*ssa.MapUpdate); ok {
+				if cl, ok := strip(mu2.Value).(*ssa.Call); ok && calleeName(&cl.Call) == "internal/configgen.minVersion" {
+					isMinTable = true
+				}
+			}
+		}
+		if !isMinTable {
+			continue
+		}
+		nStores++
+		if cl, ok := strip(mu.Value).(*ssa.Call); ok && calleeName(&cl.Call) == "internal/configgen.minVersion" {
+			a := cl.Call.Args
+			lk, isLk := strip(a[1]).(*ssa.Lookup)
+			_, vf, isVer := fieldLoad(a[2])
+			okFold := describe(a[0]) == describe(mu.Key) && isLk && strip(lk.X) == ssa.Value(mp) && describe(lk.Index) == describe(mu.Key) && isVer && vf == "Version"
+			r.Check("C17.generate-shape", "generate/minimum version folds minVersion over the records", m.Pos(mu.Pos()), okFold,
+				"minVersions[p] = minVersion(p, minVersions[p], record.Version); got "+shortDesc(describe(mu.Value)))
+			folds = append(folds, mu)
+			continue
+		}
+		// initialisation: the record's own version, when the program is first seen
+		_, vf, isVer := fieldLoad(mu.Value)
+		firstSeen := hasFact(factsAt(mu), func(f Fact) bool {
+			// `_, seen := programs[p]` held false
+			if lk := membershipTest(f.Cond); lk != nil && lk.CommaOk && !f.Pol {
+				return strip(lk.X) != ssa.Value(mp) && describe(lk.Index) == describe(mu.Key)
+			}
+			bo, ok := f.Cond.(*ssa.BinOp)
+			if !ok || !isNilConst(bo.Y) || !assertsEq(bo, f.Pol) {
+				return false
+			}
+			lk, ok := strip(bo.X).(*ssa.Lookup)
+			return ok && strip(lk.X) != ssa.Value(mp) && describe(lk.Index) == describe(mu.Key)
+		})
+		r.Check("C17.generate-shape", "generate/minimum version initialised only when the program is first seen", m.Pos(mu.Pos()), isVer && vf == "Version" && firstSeen,
+			"a store of the record's version outside the fold is allowed only under programs[p] == nil; a test of the stored minimum (\"\" means all versions) is not \"first seen\"")
+	}
+	r.Check("C17.generate-shape", "generate/minimum-version stores enumerated", m.Pos(gen.Pos()), len(folds) >= 1, fmt.Sprintf("%d stores, %d fold steps", nStores, len(folds)))
+	if len(folds) == 0 {
+		return
+	}
+	var inner *loopInfo
+	for _, l := range naturalLoops(gen) {
+		if l.blocks[folds[0].Block()] && (inner == nil || len(l.blocks) < len(inner.blocks)) {
+			inner = l
+		}
+	}
+	okAll := inner != nil
+	if inner != nil {
+		var start []walkState
+		for _, sc := range inner.header.Succs {
+			if inner.blocks[sc] {
+				start = append(start, walkState{inner.header, sc, 0})
+			}
+		}
+		isFold := func(in ssa.Instruction) bool {
+			for _, f := range folds {
+				if in == f {
+					return true
+				}
+			}
+			return false
+		}
+		okAll = walkWithout(start, func(in ssa.Instruction) bool { return in == inner.header.Instrs[0] }, isFold) == nil
+	}
+	r.Check("C17.generate-shape", "generate/every record takes part in the minimum", m.Pos(folds[0].Pos()), okAll, "no path to the next record may skip the fold step")
 }
